@@ -334,6 +334,9 @@ class Check:
         lines = []
         for k, (e, n, rd) in sorted(self.known_hits.items()):
             lines.append("KNOWN-FINDING: property=%s %s [%s; %d case(s) this run]" % (self.prop, e["what"], k, n))
+        with open(os.path.join(rdir, "all.json"), "w") as f:
+            json.dump([{"class": c, "diff": d, "src": (rd.get("result", {}).get("obs") or {}).get("src") if isinstance(rd, dict) else None}
+                       for c, d, rd in self.violations], f, indent=1, ensure_ascii=False)
         shown = {}
         nviol = 0
         for i, (cls, diff, rd) in enumerate(self.violations):
